@@ -558,3 +558,44 @@ Definition mm_lt (q t : mol) := iso_lt elem_eqb order_eqb (m_atoms q) (m_adj q) 
    implementation's own __eq__ (the predicates themselves are C08's business) *)
 Definition tab_match (tab : list (Z * Z)) (q a : Z) : bool := existsb (fun p => (fst p =? q) && (snd p =? a)) tab.
 Definition tab_get_mapping (atab btab : list (Z * Z)) := @mol_get_mapping Z Z Z Z (tab_match atab) (tab_match btab).
+
+(* ================================================================================================ *)
+(* intermediate states of _get_mapping: what the explicit-stack loop pops, in order                    *)
+(* ================================================================================================ *)
+(* one entry per `n, depth = stack.pop()`: (n, depth, path[:depth]) -- the part of `path` that is still valid (the Python lists are
+   cleaned lazily); the recursion tree of gm_from in pre-order is the pop order of the stack *)
+Section Trace.
+  Variables QA A QB B : Type.
+  Variable amatch : QA -> A -> bool.
+  Variable bmatch : QB -> B -> bool.
+
+  Fixpoint gm_trace (clo : closures_t QB) (o_atoms : list (Z * A)) (o_bonds : list (Z * list (Z * B))) (scope : list Z)
+           (rest : list (lentry QA QB)) (current : Z) (mp : mapping) (n : Z) (depth : Z) : list (Z * Z * list Z) :=
+    (n, depth, image mp) ::
+    let mp' := mp ++ [(current, n)] in
+    match rest with
+    | [] => []
+    | (s_n, back, s_atom, s_bond) :: rest' =>
+        match (if opt_is back current then Some n else match back with Some b => zget mp' b | None => None end) with
+        | None => []
+        | Some n' =>
+            let cands := filter (fun ob => cand_ok amatch bmatch (clo_get clo s_n) o_atoms o_bonds scope mp' n' s_atom s_bond (fst ob) (snd ob))
+                                (adj_get o_bonds n') in
+            flat_map (fun ob => gm_trace clo o_atoms o_bonds scope rest' s_n mp' (fst ob) (depth + 1)) (rev cands)
+        end
+    end.
+
+  Definition get_mapping_trace (lq : list (lentry QA QB)) (clo : closures_t QB) (o_atoms : list (Z * A)) (o_bonds : list (Z * list (Z * B)))
+             (scope : list Z) : list (Z * Z * list Z) :=
+    match lq with
+    | [] => []
+    | (s_n, _, s_atom, _) :: rest =>
+        let init := filter (fun na => zmem (fst na) scope && amatch s_atom (snd na)) o_atoms in
+        flat_map (fun na => gm_trace clo o_atoms o_bonds scope rest s_n [] (fst na) 0) (rev init)
+    end.
+End Trace.
+Arguments gm_trace {QA A QB B} amatch bmatch clo o_atoms o_bonds scope rest current mp n depth.
+Arguments get_mapping_trace {QA A QB B} amatch bmatch lq clo o_atoms o_bonds scope.
+Definition zget_mapping_trace := @get_mapping_trace Z Z Z Z Z.eqb Z.eqb.
+Definition trace_eqb (x y : list (Z * Z * list Z)) : bool :=
+  list_eqb (fun a b => (fst (fst a) =? fst (fst b)) && (snd (fst a) =? snd (fst b)) && list_eqb Z.eqb (snd a) (snd b)) x y.
